@@ -3,6 +3,7 @@ SPECIFICATION Spec
 CONSTANTS
   ND = 3
   RefKinds <- MCKinds3
+  InsKinds <- MCIns3
   ExtSets <- MCExt3
   InitSets <- MCInit3
   MaxRefs = 5
